@@ -23,6 +23,8 @@ def run(ctx):
             seed = ctx.seed * 1000 + i
             if cfg != "tsm1":
                 jobs.append(("mt", [seed, 2 + i % 3, 3 + i % 4]))
+                if i % 2 == 0:  # thread churn: more threads, longer scripts (stacks released and re-acquired several times)
+                    jobs.append(("mt", [seed + 500, 4 + i % 3, 8 + i % 5]))
             elif i < 6:
                 jobs.append(("mt", [seed, 2 + i % 3, 1]))
             if i < (12 if ctx.thorough else 4):
@@ -43,6 +45,7 @@ def run(ctx):
                     fails.append((j, res))
         ctx.add_cov("temp/" + cfg, st["lines"], st["steps"], traces=st["traces"],
                     sample=None, extra=st)
+        fails.sort(key=lambda f: 0 if (f[1]["oracle"] or f[1]["rc"] != 0) else 1)  # a concrete failing input first
         for j, res in fails[:2]:
             cmd = "%s %s %s" % (exe, j[0], " ".join(map(str, j[1])))
             scripts = [l for l in res["lines"] if l.startswith("tmt scripts")]
@@ -72,7 +75,9 @@ def run(ctx):
                             "controller along a seeded schedule (guarded hooks before the list-head load, every compare-exchange on in_use, the push "
                             "of a new node, the in_use=false store); after every step the in_use flags of all stacks and the stack held by every "
                             "thread are compared with the Lean transition system; oracle on the real code: no two live threads hold the same stack, "
-                            "no stack stays in use after all threads finished. single thread: random nesting of temporary_allocators with "
+                            "no stack stays in use after all threads finished, and - counted from what the threads hold, not from the library's list - never "
+                            "more distinct stacks than the largest number of threads that held or were acquiring one at the same time (reuse); half of the "
+                            "traces use 4-6 threads with scripts of 8-12 acts (churn). single thread: random nesting of temporary_allocators with "
                             "allocations, shrink_to_fit flags; the stack top after each destructor must equal the top at construction and enclosing "
                             "scopes keep their content. program exit (child processes): workers-only, initializer in main, main only, main and "
                             "workers - the library's leak checker must report nothing. mode 1 (tsm1): scope oracle, distinctness of the stacks of "
